@@ -370,6 +370,10 @@ class XYFitResultOnPlot(ObjectOnPlot, ObjectWithRange):
         self._xrange = result.xrange if result.xrange else (
             min(result.dataset.xvalues), max(result.dataset.xvalues))
 
+        # the keyword arguments may be those of the fit (Plot.fit passes them on); the range
+        # of the fit is already part of the result and is passed explicitly below
+        kwargs.pop("xrange", None)
+
         self.func_on_plot = FunctionOnPlot(
             result.fit_function, xrange=self._xrange, error_method=lit.MONTE_CARLO, **kwargs)
         self.residuals_on_plot = XYDataSetOnPlot(
